@@ -320,3 +320,69 @@ func (w *world) runBatch(tr *drv.Tracer, c acase, pat map[string]any) error {
 	w.logOutcome(tr, subs, herr)
 	return nil
 }
+
+// bigDeliveries is the number of times one large peer set is delivered, each time to fresh component instances: which
+// entries a handler looks at first is Go map order, so one delivery shows one of many orders.
+const bigDeliveries = 6
+
+// runBig builds ONE peer message with the partial signatures of validators 1..K (K = the case's ai), all made with the
+// sender's share for the same duty; bad[k] names the one alteration of entry k ("" = none).  The message is delivered
+// bigDeliveries times to fresh component instances; every delivery is a trace of its own (the first continues the
+// schedule's Reset, the others start with a Reset carrying the same sid).
+func (w *world) runBig(tr *drv.Tracer, sid int, raw map[string]any) error {
+	c := parseCase(raw)
+	if c.path != "peer" {
+		return fmt.Errorf("large sets are peer messages, got path %q", c.path)
+	}
+	var bad []string
+	for _, b := range raw["bad"].([]any) {
+		bad = append(bad, drv.Str(b))
+	}
+	k := c.ai
+	if k < 1 || k > w.v || len(bad) != k {
+		return fmt.Errorf("malformed large set: K=%d, %d classes, %d validators in the lock", k, len(bad), w.v)
+	}
+	w.cur = &caseCtx{}
+	w.place("")
+	own := c.sender
+	var entries []entry
+	for i := 1; i <= k; i++ {
+		var (
+			e   entry
+			err error
+		)
+		switch bad[i-1] {
+		case "":
+			e, err = w.build(c, own, i, "none", 0, "")
+		case "otherShare":
+			e, err = w.build(c, own, i, "otherShare", own%w.n+1, "")
+		case "otherVal":
+			e, err = w.build(c, own, i, "otherVal", i%k+1, "")
+		case "field":
+			e, err = w.build(c, own, i, "field", 0, batchField[c.kind])
+		case "unknownLock":
+			e, err = w.build(c, own, i, "unknownLock", 0, "")
+		default:
+			err = fmt.Errorf("unknown element class %q", bad[i-1])
+		}
+		if err != nil {
+			return err
+		}
+		entries = append(entries, e)
+	}
+	subs := snapshot(entries)
+	for d := 0; d < bigDeliveries; d++ {
+		if d > 0 {
+			tr.Emit(drv.Step{"ev": "Reset", "sid": sid, "N": w.n, "V": w.v})
+			w.fresh()
+		}
+		tr.Emit(drv.Step{"ev": "SubmitBig", "c": raw})
+		w.cur = &caseCtx{}
+		herr, err := w.submitPeer(c, entries)
+		if err != nil {
+			return err
+		}
+		w.logOutcome(tr, subs, herr)
+	}
+	return nil
+}
